@@ -41,9 +41,13 @@ pub fn gen(rng: &mut Rng, tier: Tier, idx: u64) -> Case {
     if idx % 4 == 0 {
         sw.types = vec![all[(idx / 4) as usize % all.len()]];
     }
+    if tier != Tier::Thorough {
+        sw.max_frame = 16_384 + 16;
+    }
     let mut c = Case::new("C05", "c05-sched", sw.fam, Front::P);
     let mut a = gen::gen_packet(rng, &sw);
     maybe_retarget(rng, &sw, &mut a, 24);
+    gen::maybe_retarget_props(rng, sw.fam, &mut a, 40);
     c.style = Style {
         spell: rng.below(3) as u8,
         shuffle: if rng.chance(1, 3) { rng.next_u64() } else { 0 },
